@@ -1410,6 +1410,87 @@ func (c *Ctx) ruleRefusalCloses(rule string) {
 	if n < 2 {
 		c.R.Unresolved(rule, sprintf("rejecting returns of the function that registers a run's signal channel (%d found, at least 2 expected)", n))
 	}
+	c.ruleUnregisteredCloses(rule)
+}
+
+// R-SIGCHAN, never-registered clause: above the registering function, every method of the client that receives the
+// caller's channel (a send-only channel parameter) and returns has, on every path to the return, handed the channel on
+// - to a callee that takes it as an argument (which is under the same obligation, down to the registering function,
+// whose refusals close it and whose success leaves it to the run's end), to a close, or to a deferred call of either.
+// A path that returns without doing so - a run refused for a blank ID, input that cannot be encoded, the whole legacy
+// path, which never registers anything - leaves the channel open for ever.
+func (c *Ctx) ruleUnregisteredCloses(rule string) {
+	ro := c.roles()
+	if !ro.ok {
+		return
+	}
+	n := 0
+	for _, fn := range c.M.SortedFuncs(c.scopePkg("atp")) {
+		if !c.methodOrClosureOf(fn, ro.clientT) || fn.Parent() != nil {
+			continue
+		}
+		var ch *ssa.Parameter
+		for _, p := range fn.Params {
+			if t, ok := p.Type().Underlying().(*types.Chan); ok && t.Dir() == types.SendOnly {
+				ch = p
+			}
+		}
+		if ch == nil {
+			continue
+		}
+		// the registering function itself has the refusal clause
+		registers := false
+		for _, b := range fn.Blocks {
+			for _, in := range b.Instrs {
+				if mu, ok := in.(*ssa.MapUpdate); ok && mu.Value == ssa.Value(ch) {
+					registers = true
+				}
+			}
+		}
+		if registers {
+			continue
+		}
+		gen := func(b *ssa.BasicBlock) bool {
+			for _, in := range b.Instrs {
+				var cc *ssa.CallCommon
+				switch x := in.(type) {
+				case *ssa.Call:
+					cc = &x.Call
+				case *ssa.Defer:
+					cc = &x.Call
+				}
+				if cc == nil {
+					continue
+				}
+				for _, a := range cc.Args {
+					if a == ssa.Value(ch) {
+						return true
+					}
+				}
+			}
+			return false
+		}
+		isNilEdge := func(cond core.Cond) bool {
+			x, neq, isNil := core.NilCmp(cond.V)
+			return isNil && neq != cond.True && x == ssa.Value(ch)
+		}
+		hold := mustHoldGen(fn, isNilEdge, gen)
+		cnt := 0
+		for _, ret := range core.ReturnsOf(fn) {
+			n++
+			cnt++
+			k := key(rule, c.M.Key(fn), sprintf("return #%d is reached only after the caller's signal channel was handed on or closed", cnt))
+			if hold[ret.Block()] || gen(ret.Block()) {
+				c.R.Ok(rule, k, c.M.InstrPos(ret), "end of a call that was given the caller's signal channel", "on every path the channel was passed to a callee, closed, or left to a deferred call")
+			} else {
+				c.R.Bad(rule, k, c.M.InstrPos(ret), "a call returns without anybody having taken charge of the caller's signal channel",
+					"the run never gets as far as being registered (refused, legacy path, input that cannot be encoded): nothing knows the channel, nothing will ever close it, and the caller's goroutine that ranges over it never ends")
+			}
+		}
+	}
+	if n < 3 {
+		c.R.Unresolved(rule, sprintf("returns of the client methods above the registering function that receive the caller's signal channel (%d found, at least 3 expected)", n))
+	}
 }
 
 // R-READFIRST (C06 "every Execute returns ... under every interleaving of ... signal traffic in both directions"): while
